@@ -168,7 +168,7 @@ func kindRange(kind string) (lo, hi int64, unsigned bool) {
 	return 0, math.MaxInt64, true // uint, uint64 (upper part drawn separately)
 }
 
-var runeClasses = [][]rune{[]rune("abcxyz019"), []rune("éñß"), []rune("测试验证"), []rune("😀🎉"), {'a', 0x301}}
+var runeClasses = [][]rune{[]rune("abcxyz019"), []rune("éñß"), []rune("测试验证"), []rune("😀🎉"), {'a', 0x301}, []rune(" \t\u3000\u00a0")} // white space counts as characters, also at the ends
 
 func strOfRunes(t *rapid.T, n int) string {
 	var b strings.Builder
